@@ -204,6 +204,11 @@ def step (s : VSt) (toks : List String) : String × VSt :=
           | .fault _ => pure ()
           throw st)
     | "mct", [d] => if c == nat d then skip else runOp s (unit do destruct cfg c; moveConstruct cfg c (nat d))
+    | "reloc", [] =>
+        -- byte-wise relocation of the container object (only types claiming the trait): the model state does not depend on
+        -- the object's address, so nothing changes
+        let claims := cfg.flavour == .std || s.mem.cat != .ntr
+        if claims then runOp s (unit (pure ())) else skip
     | "at", [i] => runOp s (do
         if cnt i ≥ (← vsize cfg c) then raise .outOfRange
         let v ← readLive ((← vbegin cfg c).add (cnt i))
